@@ -80,6 +80,8 @@ def _pk_atom(t):
 
 
 def classify_segs(segs):
+    if B.clobbers(segs):
+        return ("other", B.show_nf(segs))
     if not B.is_strong(segs):
         return ("weak", B.show_nf(segs))
     if len(segs) == 1 and segs[0][0] == "v":
